@@ -35,6 +35,7 @@ type Gen struct {
 	specs     map[string]*SpecFn
 	axioms    []*Axiom
 	lemmas    []*Lemma
+	ghosts    map[string]*GhostVar
 	progs     map[string]*program
 	strIDs    map[string]int
 	typeIDs   map[string]int
@@ -44,7 +45,7 @@ type Gen struct {
 }
 
 func NewGen(repo string) *Gen {
-	return &Gen{repo: repo, contracts: map[string]*Contract{}, specs: map[string]*SpecFn{}, progs: map[string]*program{},
+	return &Gen{repo: repo, contracts: map[string]*Contract{}, specs: map[string]*SpecFn{}, ghosts: map[string]*GhostVar{}, progs: map[string]*program{},
 		strIDs: map[string]int{}, typeIDs: map[string]int{}, globIDs: map[string]int{}, funcIDs: map[string]int{}}
 }
 
@@ -106,6 +107,9 @@ func (g *Gen) addFile(cf *ContractFile) {
 		if _, ok := g.specs[s.Name]; !ok {
 			g.specs[s.Name] = s
 		}
+	}
+	for _, gv := range cf.Ghosts {
+		g.ghosts[gv.Name] = gv
 	}
 	g.axioms = append(g.axioms, cf.Axioms...)
 	g.lemmas = append(g.lemmas, cf.Lemmas...)
